@@ -15,6 +15,7 @@
 #define G_PCT          0x100   /* path/host/query characters may be percent-encoded triplets */
 #define G_EMPTYHOST    0x200
 #define G_AUTH_REQ     0x400
+#define G_SCHEME2      0x800   /* scheme of one or two symbolic letters */
 
 /* character classes as pure functions (evaluated to one ite term, no forking) */
 static int g_is_alpha(unsigned long c){ return (c >= 'a' && c <= 'z') || (c >= 'A' && c <= 'Z'); }
@@ -85,7 +86,9 @@ static long g_lit(CH *d, long n, const char *s){ while (*s) d[n++] = (CH)*s++; r
 static long gen_uri(CH *d, int flags, int K, int L, const char *name){
   long n = 0; int has_scheme = 0, has_auth = 0, k, nseg, lead;
   if ((flags & G_SCHEME_REQ) || ((flags & G_SCHEME_OPT) && uk_choice(2, "scheme"))){
-    CH c = g_sym(name); uk_assume(g_is_alpha(CHV(c))); d[n++] = c; d[n++] = ':'; has_scheme = 1;
+    CH c = g_sym(name); uk_assume(g_is_alpha(CHV(c))); d[n++] = c;
+    if ((flags & G_SCHEME2) && uk_choice(2, "scheme2")){ c = g_sym(name); uk_assume(g_is_alpha(CHV(c))); d[n++] = c; }
+    d[n++] = ':'; has_scheme = 1;
   }
   if ((flags & G_AUTH_REQ) || ((flags & G_AUTH) && uk_choice(2, "auth"))){
     has_auth = 1; d[n++] = '/'; d[n++] = '/';
